@@ -326,7 +326,11 @@ fn fake_chain(rng: &mut Rng, base: u64) -> (Vec<(u64, Vec<u8>)>, u64, u64, Chain
     rd.extend_from_slice(&0u32.to_le_bytes());
     rd.extend_from_slice(&(if n > 0 { lm0 } else { 0 }).to_le_bytes());
     rd.extend_from_slice(&brk.to_le_bytes());
-    rd.extend_from_slice(&0u64.to_le_bytes()); // r_state + pad
+    // r_state: the linker may be in the middle of adding or removing an object (RT_ADD = 1,
+    // RT_DELETE = 2) when the dump is taken; the list is recorded as it stands all the same.
+    // (derived from a value already drawn: older seeds keep their random stream)
+    rd.extend_from_slice(&((brk % 3) as u32).to_le_bytes());
+    rd.extend_from_slice(&0u32.to_le_bytes());
     rd.extend_from_slice(&ldbase.to_le_bytes());
     pokes.push((rdebug, rd));
     let mut links = Vec::new();
@@ -380,6 +384,9 @@ pub fn run(rep: &mut Report, thorough: bool) {
         let fake_addr = b.spec.regions[fake].addr;
         let (pokes, fake_phdr, fake_phnum, fake_truth) = fake_chain(&mut rng, fake_addr);
         b.spec.regions[fake].pokes = pokes;
+        if fake_truth.brk % 3 != 0 {
+            rep.count("fake_chains_in_a_transitional_linker_state", 1);
+        }
         for _ in 0..rng.range(1, 3) {
             b.sentinel(&mut rng, Mode::Pause, &StackShape::default(), None, None);
         }
